@@ -27,6 +27,52 @@ for be, defs in BACKENDS.items():
             assumptions=[A2, A7, A9],
             note='loop-free: complete over all 2^32 allow_tld masks, every callback result in (-EEAV_MAX, TLD_TYPE_MAX), every prior object state'))
 
+# ---- local-part scanners (loop contracts + ghost specification automaton)
+for fn, t in (('is_822_local', 1500), ('is_5321_local', 900), ('is_5322_local', 900)):
+    add(Job(fn, 'harness/%s.c' % fn, enforce=fn, loops=True, timeout=t, reach=3,
+            expect=['postcondition', 'loop_invariant_base', 'loop_invariant_step', 'loop_decreases', 'assigns'],
+            functions=[fn], files=['src/%s.c' % fn], assumptions=[A1, A9],
+            note='input length symbolic, g_len <= 2^40; both directions against spec/spec_local.h'))
+add(Job('is_6531_local', 'harness/is_6531_local.c', enforce='is_6531_local', loops=True, timeout=2400, reach=3,
+        extra_sources=['src/utf8_decode.c'],
+        expect=['postcondition', 'loop_invariant_base', 'loop_invariant_step', 'loop_decreases', 'assigns'],
+        functions=['is_6531_local', 'utf8_decode_init/next/at_byte (inlined)'], files=['src/is_6531_local.c', 'src/utf8_decode.c'],
+        assumptions=[A1, A9], note='g_len <= 2^31-16 (the decoder stores lengths in int)'))
+add(Job('utf8_decode_next', 'harness/utf8_decode_next.c', enforce='utf8_decode_next', timeout=600, reach=3,
+        expect=['postcondition', 'assigns'], functions=['utf8_decode_next', 'get, cont (inlined)'], files=['src/utf8_decode.c'],
+        assumptions=[A9], note='loop-free: complete for every byte tuple at every offset; Unicode Table 3-7'))
+add(Job('is_ascii_domain', 'harness/is_ascii_domain.c', enforce='is_ascii_domain', loops=True, timeout=900, reach=3,
+        expect=['postcondition', 'loop_invariant_base', 'loop_invariant_step', 'loop_decreases', 'assigns'],
+        functions=['is_ascii_domain'], files=['src/is_ascii_domain.c'], assumptions=[A1, A9],
+        note='g_len <= 2^31-16; both directions against spec/spec_host.h'))
+
+# ---- e-mail functions: composition with every callee replaced by its recording contract;
+#      the proof is split by input class (host-name path incl. all "no split" cases / address-literal path)
+EMAIL_CALLEES = ['is_822_local', 'is_5321_local', 'is_5322_local', 'is_6531_local', 'is_ascii_domain', 'is_utf8_domain',
+                 'is_special_domain', 'is_tld', 'is_ipaddr', 'is_ipv6', 'is_ipv4']
+A3 = 'A3: strrchr/strchr models answer from ghost indices constrained pointwise (s[k]==c); that the index is the last/first occurrence is the libc semantics, assumed; no interior NUL (premise of the properties)'
+A6 = 'A6: strncasecmp oracle models assert which operands/length they are given and answer from a ghost; their meaning (ASCII case-insensitive equality) is glibc C-locale semantics'
+EMAIL_JOBS = []
+for mode in ('822', '5321', '5322'):
+    for path in ('HOST', 'LITERAL'):
+        n = 'email_%s_%s' % (mode, path.lower())
+        add(Job(n, 'harness/email_ascii.c', enforce='is_%s_email' % mode, replace_candidates=EMAIL_CALLEES,
+                defines=['-DEMAIL_MODE=' + mode, '-DPATH_' + path, '-DHAVE_LIBIDN2'], timeout=900, reach=4,
+                expect=['postcondition', 'assigns'], functions=['is_%s_email' % mode],
+                files=['src/is_%s_email.c' % mode, 'include/eav/private_email.h'], assumptions=[A1, A2, A3, A6, A9],
+                note='input class: ' + ('address does not reach the address-literal branch' if path == 'HOST' else "L@[...: domain starts with '['") + '; g_len <= 2^40'))
+        EMAIL_JOBS.append(n)
+for be, defs in BACKENDS.items():
+    sfx = '' if be == 'idn2' else '@' + be
+    for path in ('HOST', 'LITERAL'):
+        n = 'email_6531_%s%s' % (path.lower(), sfx)
+        add(Job(n, 'harness/email_6531.c', enforce='is_6531_email', replace_candidates=EMAIL_CALLEES,
+                defines=['-DPATH_' + path] + defs, timeout=900, reach=4, backend=be,
+                expect=['postcondition', 'assigns'], functions=['is_6531_email'],
+                files=['partial/%s/is_6531_email.c' % be, 'include/eav/private_email.h'], assumptions=[A1, A2, A3, A6, A9]))
+        if be == 'idn2':
+            EMAIL_JOBS.append(n)
+
 PROPS = {}
 
 HOOK_COMMITS = ['5cf62d3']
